@@ -29,6 +29,12 @@ Double(name, class, en, fr) ==
      cfg |-> [default |-> "en", locales |-> <<"en", "fr">>],
      files |-> << <<"en", MapNode(en)>>, <<"fr", MapNode(fr)>> >>]
 
+\* several locales with an inherits table (sequence of <<locale, parent>>)
+Multi(name, class, locs, files, inh) ==
+    [family |-> "robust", abs |-> [name |-> name, class |-> class],
+     cfg |-> [default |-> locs[1], locales |-> locs, inherits |-> inh],
+     files |-> [i \in DOMAIN locs |-> <<locs[i], MapNode(files[i])>>]]
+
 RangeSeq(ty, branches) == SeqNode((IF ty = <<>> THEN <<>> ELSE <<S(ty)>>) \o branches)
 Br(v, spec) == SeqNode(<<S(v), S(spec)>>)
 BrN(v, raw) == SeqNode(<<S(v), Raw(raw)>>)
@@ -132,10 +138,13 @@ RangeAdvCase(ty, struct, tok, asNum, vk, fk) ==
         branch == IF struct THEN MapNode(<< E("count", count), E("value", ValueNode(vk)) >>) ELSE SeqNode(<< ValueNode(vk), count >>)
         fb == IF struct THEN MapNode(<< E("value", ValueNode(fk)) >>) ELSE SeqNode(<< ValueNode(fk) >>) IN
     Single("range-adv", "any", << E("r", RangeSeq(ty, << branch, fb >>)) >>)
-RangeAdversarial ==
-    { RangeAdvCase(ty, st, tok, FALSE, vk, "str") : ty \in RTypes, st \in BOOLEAN, tok \in NumToks \cup StrOnlyToks, vk \in ValueKinds }
-    \cup { RangeAdvCase(ty, st, tok, TRUE, vk, "str") : ty \in RTypes, st \in BOOLEAN, tok \in NumToks, vk \in {"str", "null"} }
-    \cup { RangeAdvCase(ty, st, <<"0">>, FALSE, "str", fk) : ty \in RTypes, st \in BOOLEAN, fk \in ValueKinds }
+\* (universes are built as SEQUENCES over sets of homogeneous index tuples: a set of cases would make TLC compare file
+\* nodes of different shapes)
+RangeAdvIdx ==
+    { <<ty, st, tok, FALSE, vk, "str">> : ty \in RTypes, st \in BOOLEAN, tok \in NumToks \cup StrOnlyToks, vk \in ValueKinds }
+    \cup { <<ty, st, tok, TRUE, vk, "str">> : ty \in RTypes, st \in BOOLEAN, tok \in NumToks, vk \in {"str", "null"} }
+    \cup { <<ty, st, <<"0">>, FALSE, "str", fk>> : ty \in RTypes, st \in BOOLEAN, fk \in ValueKinds }
+RangeAdversarial == LET I == SetToSeq(RangeAdvIdx) IN [j \in DOMAIN I |-> RangeAdvCase(I[j][1], I[j][2], I[j][3], I[j][4], I[j][5], I[j][6])]
 
 \* ---- keys and values, adversarially: odd key names x every kind of JSON value, in the default locale and in a second one
 KeyNames == { "k", "", "a-b", "type", "1a", "a b", "self", "_", "a.b", "a:b", "Self", "crate", "k_", "_one", "k_one_one" }
@@ -144,15 +153,14 @@ AnyNode(k) == CASE k = "str" -> S(<<"x">>) [] k = "null" -> Raw("null") [] k = "
                 [] k = "float" -> Raw("1.5") [] k = "bool" -> Raw("true") [] k = "map" -> MapNode(<< E("s", S(<<"x">>)) >>)
                 [] k = "emptymap" -> MapNode(<<>>) [] k = "seq" -> SeqNode(<< SeqNode(<< S(<<"x">>) >>) >>) [] k = "emptyseq" -> SeqNode(<<>>)
                 [] k = "var" -> S(VarX) [] OTHER -> S(<<>>)
-KeyAdversarial ==
-    { Double("key-adv", "any", << E(n, AnyNode(k1)), E("z", S(<<"z">>)) >>, << E(n, AnyNode(k2)), E("z", S(<<"z">>)) >>)
-      : n \in {"k", "a-b", "type"}, k1 \in AnyKinds, k2 \in AnyKinds }
-    \cup { Double("key-adv", "any", << E(n, AnyNode(k1)), E("z", S(<<"z">>)) >>, << E(n, AnyNode(k1)), E("z", S(<<"z">>)) >>)
-           : n \in KeyNames, k1 \in AnyKinds }
+KeyAdvIdx == { <<n, k1, k2>> : n \in {"k", "a-b", "type"}, k1 \in AnyKinds, k2 \in AnyKinds } \cup { <<n, k1, k1>> : n \in KeyNames, k1 \in AnyKinds }
+KeyAdversarial == LET I == SetToSeq(KeyAdvIdx) IN
+    [j \in DOMAIN I |-> Double("key-adv", "any", << E(I[j][1], AnyNode(I[j][2])), E("z", S(<<"z">>)) >>, << E(I[j][1], AnyNode(I[j][3])), E("z", S(<<"z">>)) >>)]
 \* plural members of every kind of value
-PluralAdversarial ==
-    { Double("plural-adv", "any", << E(b \o "_one", AnyNode(k1)), E(b \o "_other", AnyNode(k2)) >>, << E(b \o "_one", AnyNode(k2)), E(b \o "_other", AnyNode(k1)) >>)
-      : b \in {"k", "k_ordinal"}, k1 \in AnyKinds, k2 \in AnyKinds }
+PluralAdvIdx == { <<b, k1, k2>> : b \in {"k", "k_ordinal"}, k1 \in AnyKinds, k2 \in AnyKinds }
+PluralAdversarial == LET I == SetToSeq(PluralAdvIdx) IN
+    [j \in DOMAIN I |-> Double("plural-adv", "any", << E(I[j][1] \o "_one", AnyNode(I[j][2])), E(I[j][1] \o "_other", AnyNode(I[j][3])) >>,
+                                << E(I[j][1] \o "_one", AnyNode(I[j][3])), E(I[j][1] \o "_other", AnyNode(I[j][2])) >>)]
 
 \* names inside values: variables and components whose names are dashed, keywords, digits, empty; at top level, inside a
 \* dashed subkey group, inside a range branch, inside a plural form, and as the argument name of a foreign key
@@ -160,17 +168,32 @@ OddNames == { <<"x">>, <<"m","y","DASH","v">>, <<"t","y","p","e">>, <<"s","e","l
               <<"S","e","l","f">>, <<"US">>, <<"a","DOT","b">>, <<"E1">> }
 VarOf(n) == <<"LB", "LB", "SP">> \o n \o <<"SP", "RB", "RB">>
 CompOf(n) == <<"LT">> \o n \o <<"GT", "x", "LT", "SL">> \o n \o <<"GT">>
-NameValues(n) == { VarOf(n), CompOf(n), CompOf(n) \o VarOf(n) }
-NamePairs == UNION { { <<n, v>> : v \in NameValues(n) } : n \in OddNames }
+NameValue(n, vk) == CASE vk = "var" -> VarOf(n) [] vk = "comp" -> CompOf(n) [] OTHER -> CompOf(n) \o VarOf(n)
 NameAdvOf(k, n, v) ==
-            { Single("name-adv", "any", << E(k, S(v)) >>),
+            << Single("name-adv", "any", << E(k, S(v)) >>),
               Single("name-adv", "any", << E("g-h", MapNode(<< E(k, S(v)) >>)) >>),
               Single("name-adv", "any", << E(k, RangeSeq(<<>>, << Br(v, <<"0">>), Fb(<<"y">>) >>)) >>),
               Single("name-adv", "any", << E(k \o "_one", S(v)), E(k \o "_other", S(<<"y">>)) >>),
               Single("name-adv", "any", << E("t", S(VarOf(n))), E(k, S(FkArgs(<<"t">>, StrArg(n, <<"A">>)))) >>),
               Double("name-adv", "any", << E(k, S(v)) >>, << E(k, S(<<"p","l","a","i","n">>)) >>),
-              Double("name-adv", "any", << E(k, S(<<"p","l","a","i","n">>)) >>, << E(k, S(v)) >>) }
-NameAdversarial == UNION { NameAdvOf(k, nv[1], nv[2]) : k \in {"k", "a-b"}, nv \in NamePairs }
+              Double("name-adv", "any", << E(k, S(<<"p","l","a","i","n">>)) >>, << E(k, S(v)) >>) >>
+NameAdvIdx == { <<k, n, vk>> : k \in {"k", "a-b"}, n \in OddNames, vk \in {"var", "comp", "both"} }
+NameAdversarial == LET I == SetToSeq(NameAdvIdx) IN Cat([j \in DOMAIN I |-> NameAdvOf(I[j][1], I[j][2], NameValue(I[j][2], I[j][3]))])
+
+\* a reference whose target is null along an inherits chain: loops entered from outside, loops alone, chains, self loops
+NullA == << E("a", Raw("null")), E("b", S(Fk(<<"a">>))) >>
+NoA == << E("b", S(Fk(<<"a">>))) >>
+DefA == << E("a", S(<<"y">>)), E("b", S(Fk(<<"a">>))) >>
+AOf(k) == CASE k = "null" -> NullA [] k = "no" -> NoA [] OTHER -> DefA
+InhTables == << << <<"es", "fr">>, <<"fr", "de">>, <<"de", "fr">> >>,
+               << <<"fr", "de">>, <<"de", "fr">> >>,
+               << <<"es", "fr">>, <<"fr", "de">> >>,
+               << <<"es", "es">> >>,
+               << <<"fr", "de">>, <<"de", "es">>, <<"es", "fr">> >>,
+               << <<"es", "de">>, <<"fr", "de">>, <<"de", "fr">> >> >>
+InheritsIdx == { <<f, d, e, t>> : f \in {"null", "no"}, d \in {"null", "no"}, e \in {"null", "no", "def"}, t \in DOMAIN InhTables }
+InheritsLoops == LET I == SetToSeq(InheritsIdx) IN
+    [j \in DOMAIN I |-> Multi("inherits-loop", "any", <<"en", "fr", "de", "es">>, << DefA, AOf(I[j][1]), AOf(I[j][2]), AOf(I[j][3]) >>, InhTables[I[j][4]])]
 
 \* nesting depth n (recursion of the splitter is inherent in nesting)
 DeepNest(n) == <<
